@@ -13,7 +13,7 @@ loop, C08) with the same strictness.  VERIF_REPO=<dir> reads another source tree
 import os, re, sys, json
 
 REPO = os.environ.get("VERIF_REPO", "/repo")
-OUT = os.path.join(os.path.dirname(os.path.abspath(__file__)), "..", "coq", "Generated")
+OUT = os.environ.get("VERIF_GEN_OUT") or os.path.join(os.path.dirname(os.path.abspath(__file__)), "..", "coq", "Generated")   # developer override only
 
 
 class AnchorMissing(Exception):
